@@ -517,15 +517,54 @@ func ruleLayout(p *Prog, r *Report, pkg string, pairs []layoutPair, wrappers []s
 	for _, w := range wrappers {
 		wrap[w] = true
 	}
-	// completeness: every codec-named function is in the table
+	// completeness: every codec-named function is in the table, or is paired with its sibling by the naming convention
+	// (serializeX[To] <-> deserializeX[From], same receiver): a helper extracted from a codec must not make the run undecided
 	var names []string
 	for k := range decls {
 		names = append(names, k)
 	}
 	sort.Strings(names)
+	baseOf := func(k string) (base string, writer bool) {
+		recv, name := "", k
+		if i := strings.Index(k, "."); i >= 0 {
+			recv, name = k[:i+1], k[i+1:]
+		}
+		l := strings.ToLower(name)
+		writer = !strings.Contains(l, "deserialize")
+		l = strings.Replace(l, "deserialize", "", 1)
+		l = strings.Replace(l, "serialize", "", 1)
+		l = strings.TrimSuffix(strings.TrimSuffix(l, "from"), "to")
+		return strings.ToLower(recv) + l, writer
+	}
+	extra := map[string][2]string{}
 	for _, k := range names {
 		if strings.Contains(strings.ToLower(k), "serialize") && role[k] == "" && !wrap[k] {
-			undecided("R-LAYOUT: %s.%s looks like a codec of the font index but has no sibling in the pair table (sa/c16.go): its layout cannot be compared", pkg, k)
+			b, w := baseOf(k)
+			e := extra[b]
+			if w {
+				e[0] = k
+			} else {
+				e[1] = k
+			}
+			extra[b] = e
+		}
+	}
+	var bases []string
+	for b := range extra {
+		bases = append(bases, b)
+	}
+	sort.Strings(bases)
+	for _, b := range bases {
+		e := extra[b]
+		if e[0] == "" || e[1] == "" {
+			undecided("R-LAYOUT: %s.%s%s looks like a codec of the font index but has no sibling (neither in the pair table of sa/c16.go nor by the naming convention): its layout cannot be compared", pkg, e[0], e[1])
+		}
+		pairs = append(pairs, layoutPair{e[0], e[1]})
+		for i, k := range []string{e[0], e[1]} {
+			role[k] = []string{"w", "r"}[i]
+			if fo, ok := pk.TypesInfo.Defs[decls[k].Name].(*types.Func); ok {
+				pairOf[fo] = e[0]
+			}
 		}
 	}
 	n := 0
